@@ -5,10 +5,11 @@
 //!   {"mode":"ops","store":"mem"|"rocks","ops":[op..],"ground":[entry..]?}
 //!       -> {"steps":[obs..]}            (obs after every op; "restart" reopens the RocksDB directory)
 //!   {"mode":"crash","ops":[op..],"crash_at":k,"ground":[entry..]}
-//!       -> {"writes":n,"crashed":bool,"crashed_in":i,"pre":obs,"post":obs,"expected_state":state}
+//!       -> {"writes":n,"writes_before":[..],"crashed":bool,"crashed_in":i,"post":obs,"expected_state":state}
 //!          runs ops on a fresh RocksDB directory with a process-crash (panic from the cfg(varpulis_verif)
 //!          crash hook, store dropped) after the k-th RocksDB write (k = 0: no crash, just count writes),
-//!          then reopens; "pre" = observation after the last completed op, "post" = after reopen.
+//!          then reopens; "post" = observation after reopen, "expected_state" = real apply_command folded over the
+//!          ground entries with index <= the recovered applied index.
 //!   {"mode":"suite","store":"mem"|"rocks"} -> {"results":[[test,"ok"|"panic: ..."|"err: ..."]..]}
 //!
 //! Encodings: logid [term,node,index]; vote [term,node,committed]; entry {"id":logid,"p":["blank"]|["mem",n]|["cmd",<serde ClusterCommand>]};
@@ -267,10 +268,8 @@ fn run_crash(rt: &tokio::runtime::Runtime, req: &J) -> J {
     let crash_at = req["crash_at"].as_i64().unwrap();
     let dir = fresh_dir();
     let _g = DirGuard(dir.clone());
-    let (s, shared) = RocksStore::open_with_shared_state(&dir).expect("open");
+    let (s, _shared0) = RocksStore::open_with_shared_state(&dir).expect("open");
     let mut s = Some(s);
-    let mut shared = shared;
-    let mut pre = rt.block_on(async { observe(s.as_mut().unwrap(), &shared).await }).unwrap();
     verif_crash::arm(crash_at);
     let mut crashed_in: i64 = -1;
     let mut writes_before = Vec::new();
@@ -287,10 +286,6 @@ fn run_crash(rt: &tokio::runtime::Runtime, req: &J) -> J {
                     return json!({ "error": e });
                 }
                 s = Some(st);
-                // observation must not count as writes (reads only)
-                let w = verif_crash::writes();
-                pre = rt.block_on(async { observe(s.as_mut().unwrap(), &shared).await }).unwrap();
-                assert_eq!(w, verif_crash::writes());
             }
             Err(e) => {
                 let msg = e.downcast_ref::<String>().cloned().or_else(|| e.downcast_ref::<&str>().map(|x| x.to_string())).unwrap_or_default();
@@ -306,13 +301,12 @@ fn run_crash(rt: &tokio::runtime::Runtime, req: &J) -> J {
     let writes = verif_crash::writes();
     verif_crash::arm(0);
     drop(s);
-    let (mut s2, sh2) = RocksStore::open_with_shared_state(&dir).expect("reopen");
-    shared = sh2;
+    let (mut s2, shared) = RocksStore::open_with_shared_state(&dir).expect("reopen");
     let post = rt.block_on(async { observe(&mut s2, &shared).await }).unwrap();
     let applied_ix = post["applied"].as_array().map(|a| a[2].as_u64().unwrap());
     let exp = expected_state(&ground, applied_ix);
     drop(s2);
-    json!({"writes": writes, "writes_before": writes_before, "crashed": crashed_in >= 0, "crashed_in": crashed_in, "pre": pre, "post": post, "expected_state": exp})
+    json!({"writes": writes, "writes_before": writes_before, "crashed": crashed_in >= 0, "crashed_in": crashed_in, "post": post, "expected_state": exp})
 }
 
 // ---------------------------------------------------------------- openraft conformance suite
